@@ -215,11 +215,12 @@ def _provide_evaluatable_data() -> EvaluatableData:
     return EvaluatableData(body=_env(), edifact_format=FMT, edifact_format_version=FMTV)
 
 
-def is_sync_key(kind, key):
-    """which evaluate_<key> methods of the harness / user-style evaluators are plain functions (the others are coroutine
-    functions): a fixed arithmetic rule that MIXES both kinds among the first keys of every pool, in both written orders"""
-    k = int(key)
-    return (k % 7 in (1, 2, 4)) if kind == "rc" else (k % 3 == 0)
+def sync_subset(keys):
+    """which of the given keys are answered by PLAIN evaluate methods (the others by coroutine methods): positional in the
+    numerically sorted key list, so that every expression with >= 2 keys mixes both kinds whatever the key numbers are, and
+    both written orders (plain before coroutine and vice versa) occur across the enumerated expressions"""
+    ks = sorted(set(keys), key=lambda k: (int(k), k))
+    return {k for i, k in enumerate(ks) if (i + len(ks)) % 2 == 0}
 
 
 _configured = False
